@@ -296,6 +296,8 @@ def _export_roundtrip(b, pt, sc, d):
                                                                               ("n3", 16, 16, "G", None, 4, 1, 1), ("n3t", 32, 4, "G", None, 4, 1, 1), ("n4", 36, 12, "B", -1, 3, 1, 1), ("n4c", 36, 12, "D", None, 4, 1, 1)],
                                                             ties=[("n3", "n3t")], clefs=[(0, 1, "G", 2)], key=(-3, "major"), measures=[(0, 16), (16, 32), (32, 48)])),
              ("triplets_ending_on_a_chord", _tuplet_part),
+             ("tie_chain_over_two_barlines", lambda: G.build_part("P1", 2, notes=[("a0", 0, 8, "B", None, 3, 1, 1), ("a1", 8, 8, "B", None, 3, 1, 1), ("a2", 16, 4, "B", None, 3, 1, 1), ("a3", 20, 4, "C", 1, 4, 1, 1)],
+                                                                  ties=[("a0", "a1"), ("a1", "a2")], clefs=[(0, 1, "G", 2)], key=(2, "major"), measures=[(0, 8), (8, 16), (16, 24)])),
              ("two_staves", lambda: G.build_part("P1", 2, notes=[("n0", 0, 4, "C", None, 5, 1, 1), ("n1", 4, 4, "D", None, 5, 1, 1), ("b0", 0, 8, "C", None, 3, 2, 2)],
                                                  clefs=[(0, 1, "G", 2), (0, 2, "F", 4)], key=(0, "major"), measures=[(0, 8)]))]
     for name, mk in parts:
